@@ -199,6 +199,23 @@ def call(entry, payload, ver, allow_custom):
         return None, exc
     if entry == "parse_observable":
         return core.guarded(stix2.parse_observable, payload, allow_custom=allow_custom, version=ver, _valid_refs={"*": "*"} if ver == "2.0" else None)
+    if entry.startswith(("fs-source-read", "fs-store-read")):
+        # content already on disk (written by a permissive sink, or by another tool): the reading side has the switch of its own
+        import shutil
+        import tempfile
+        tmp = tempfile.mkdtemp(prefix="c04-")
+        try:
+            _, exc = core.guarded(stix2.FileSystemSink(tmp, allow_custom=True).add, payload)
+            if exc is not None:
+                return None, exc
+            route, _, how = entry.partition(":")
+            reader = stix2.FileSystemSource(tmp, allow_custom=allow_custom) if route == "fs-source-read" else stix2.FileSystemStore(tmp, allow_custom=allow_custom)
+            if how == "get":
+                return core.guarded(reader.get, payload["id"])
+            got, exc = core.guarded(reader.query)
+            return ((got[0] if got else None), None) if exc is None else (None, exc)
+        finally:
+            shutil.rmtree(tmp, ignore_errors=True)
     if entry.startswith(("fs-sink", "memory-")):
         import os
         import shutil
@@ -290,7 +307,7 @@ def check_case(case):
                 fails.append(("control-flagged-custom:%s" % kind, "has_custom is True for non-custom content"))
             return fails
         if exc is None:
-            fails.append(("custom-admitted-strict:%s:%s" % (site, "store" if entry.startswith(("memory-", "fs-sink")) else "parse/construct"),
+            fails.append(("custom-admitted-strict:%s:%s" % (site, "store" if entry.startswith(("memory-", "fs-sink", "fs-source-read", "fs-store-read")) else "parse/construct"),
                           "%s(allow_custom=False) returned %s for custom content (%s): %s" % (entry, type(res).__name__, kind, core.short(payload, 500))))
         return fails
     # permissive
@@ -327,7 +344,8 @@ def entries_for(doc, ver):
         # every documented input form of the stores (the switch is applied where content is parsed)
         e.extend(["fs-sink", "memory-store:bundle-dict", "memory-store:json", "memory-store:list", "memory-sink:bundle-json", "memory-store-ctor:bundle-dict",
                   "memory-store-ctor:list", "memory-source-ctor:bundle-json", "memory-source-ctor:dict", "memory-load-file", "fs-sink:bundle-dict",
-                  "fs-sink:bundle-json", "fs-sink:list", "fs-sink:json", "memory-store:list-of-bundle"])
+                  "fs-sink:bundle-json", "fs-sink:list", "fs-sink:json", "memory-store:list-of-bundle",
+                  "fs-source-read:query", "fs-source-read:get", "fs-store-read:query", "fs-store-read:get"])
     if t in m.observables and ver == "2.1":
         e.append("parse_observable")
     if t not in m.observables:
